@@ -245,3 +245,10 @@ def run(ctx):
     if spb:
         st = {o.what for c in spb.calls("re:HashSet.*::contains$") for o in origins(spb, c.args[0]) if o.kind == "static"}
         r5.check("pgcat::server::TRACKED_PARAMETERS" in st, "set_param-filters", "set_param admits non-startup updates only for tracked parameters", "set_param no longer filters by TRACKED_PARAMETERS")
+
+    # ---------------- R6 what a client SET stays marked until it has been reset (round 5)
+    r6 = ctx.rule("C12-R6", "values set by one client are never visible to another: the mark a client's SET (or PREPARE) leaves on the server connection is cleared only by CleanupState::reset(), "
+                  "and reset() runs only after the clean-up statement of checkin_cleanup was sent (and after pgcat's own SETs in sync_parameters, before any client statement)", floor=2)
+    from common import cleanup_mark_findings
+    for key, ok, good, bad in cleanup_mark_findings(F):
+        r6.check(ok, key, good, bad + " (the next client runs under the previous client's search_path / role / statement_timeout)")
